@@ -10,10 +10,9 @@ import os
 import sys
 import threading
 
-# files of the library whose lines are yield points (pure parsing / logging files are not: no shared state, and
-# their lru_caches would make step counts history dependent)
-NO_YIELD_FILES = {"tag_parser.py", "template_parser.py", "expression.py", "logger.py", "template_tag.py",
-                  "types.py", "validation.py", "app_settings.py"}
+# files of the library whose lines are NOT yield points: logging / settings plumbing only. (The tag parser files are
+# yield points too: tag values are compiled lazily, at the first RENDER, on Node objects shared through cached templates.)
+NO_YIELD_FILES = {"logger.py", "types.py", "app_settings.py"}
 
 GROUPS = {
     "provide": {"provide_cache", "provide_references", "all_reference_ids", "register_provide_reference",
